@@ -60,6 +60,10 @@ HARNESSES = {
     "u04_opid_order": {"crate": "automerge", "file": TYPES, "fn": "OpId::cmp, OpId::partial_cmp", "mode": "complete", "bound": "all triples of (u32,u32) ids (loop-free)"},
     "u04_opid_actor_shift": {"crate": "automerge", "file": TYPES, "fn": "OpId::with_new_actor, OpId::without_actor", "mode": "complete", "bound": "all ids with actor < u32::MAX, all usize indexes (loop-free)"},
     "u04_opid_new": {"crate": "automerge", "file": TYPES, "fn": "OpId::new, OpId::counter, OpId::actor", "mode": "complete", "bound": "all in-range (u64, usize) (loop-free)"},
+    "u04_changehash_try_from_slice": {"crate": "automerge", "file": TYPES, "fn": "ChangeHash::try_from(&[u8])", "mode": "complete", "bound": "all slices of length 0..=33 (the function only compares the length with 32)",
+                                      "backs": "the ChangeHash::try_from contract assumed by the Verus unit u02 (parse::change_hash)"},
+    "u04_actorid_bytes_roundtrip": {"crate": "automerge", "file": TYPES, "fn": "ActorId::from(&[u8]), ActorId::to_bytes", "mode": "bounded", "bound": "byte strings of length 0..=17 (inline and heap representation)",
+                                    "backs": "axiom_actor_of (admitted) of the Verus unit u04c"},
     "u04_exid_try_from_total_q": {"crate": "automerge", "file": EXID, "fn": "ExId::try_from(&[u8])", "mode": "bounded", "bound": "all inputs of <= 6 bytes", "timeout_s": 900},
     "u04_exid_try_from_total_t": {"crate": "automerge", "file": EXID, "fn": "ExId::try_from(&[u8])", "mode": "bounded", "bound": "all inputs of <= 12 bytes", "tier": "thorough", "timeout_s": 2400},
     "u04_cursor_from_str_total_q": {"crate": "automerge", "file": CURSOR, "fn": "Cursor::from_str", "mode": "bounded", "bound": "all UTF-8 strings of <= 3 bytes without an '@' (contains the empty string and non-ASCII first characters; stops before the hex decoding of the actor)", "timeout_s": 900},
@@ -243,7 +247,7 @@ PROPERTIES.update({
                                    "lemma_shape_unique", "lemma_valk_shift", "lemma_valk_prefix", "lemma_step", "lemma_step_top", "lemma_or_add", "lemma_or_add_top", "lemma_p128_shift"]),
                   ("u01_bloom", ["to_bytes", "parse", "default", "leb128_u32"]),
                   ("u05v_sync_flags", ["parse", "encode", "new", "contains", "set"])],
-        "kani": ["u03_leb128_writer_matches_parser", "u05_flags_roundtrip", "u05_flags_set_contains", "u05_flags_parse_bytes", "u01_roundtrip_1", "u01_roundtrip_3",
+        "kani": ["u04_changehash_try_from_slice", "u04_actorid_bytes_roundtrip", "u03_leb128_writer_matches_parser", "u05_flags_roundtrip", "u05_flags_set_contains", "u05_flags_parse_bytes", "u01_roundtrip_1", "u01_roundtrip_3",
                  "u04_exid_try_from_total_q", "u06_leb_unsigned_roundtrip", "u06_leb_signed_roundtrip"],
         "not_under_contract": ["Cursor::from_str / Display and ExId Display / import_obj (string forms)", "sync::Message::encode/decode, State::encode/decode",
                                "ActorId / ChangeHash hex round trips", "OpSet::lookup_actor (assumed binary search)"],
